@@ -57,6 +57,10 @@ def ev(t, x, dom):
         pat, flag = t.args
         if flag == 'notbol' and '^' in pat:
             return False
+        if flag == 'noteol' and '$' in pat:
+            return False          # ECMAScript without multiline: '$' only ever matches at the very end, which match_not_eol forbids
+        if flag == 'cont':
+            return pyre.match(pat, x) is not None   # match_continuous: the match has to start at the first character
         return pyre.search(pat, x, pyre.I if flag == 'icase' else 0) is not None
     if k == 'streq':
         return x is not None and x == t.args[0]
@@ -98,6 +102,10 @@ def cxx(t, dom):
             return 'trompeloeil::re(%s, std::regex_constants::icase)' % p
         if flag == 'notbol':
             return 'trompeloeil::re(%s, std::regex_constants::match_not_bol)' % p
+        if flag == 'noteol':
+            return 'trompeloeil::re(%s, std::regex_constants::match_not_eol)' % p
+        if flag == 'cont':
+            return 'trompeloeil::re(%s, std::regex_constants::ECMAScript, std::regex_constants::match_continuous)' % p
         return 'trompeloeil::re(%s)' % p
     if k == 'streq':
         if t.var:
@@ -172,7 +180,7 @@ def gen_str(rng, depth):
     r = rng.random()
     if depth <= 0 or r < 0.5:
         if rng.random() < 0.8:
-            return T('re', rng.choice(PATTERNS), rng.choice(['none', 'none', 'icase', 'notbol']))
+            return T('re', rng.choice(PATTERNS), rng.choice(['none', 'none', 'icase', 'notbol', 'noteol', 'cont']))
         return T('streq', rng.choice(STR_DOM[:5]), var=(True if rng.random() < 0.6 else None))
     if r < 0.7:
         return T('not', gen_str(rng, depth - 1))
@@ -183,6 +191,8 @@ HEADER = '''// generated by vlib/gen_match.py -- do not edit
 #include "gen_common.hpp"
 #include <memory>
 #include <string>
+#include <string_view>
+#include <cstring>
 struct S { int a; int b; };
 struct MockC
 {
@@ -193,6 +203,7 @@ struct MockC
   MAKE_MOCK1(fs, void(S const&));
   MAKE_MOCK1(fstr, void(std::string const&));
   MAKE_MOCK1(fcs, void(char const*));
+  MAKE_MOCK1(fsv, void(std::string_view));
   MAKE_MOCK1(fuc, void(unsigned char));
   MAKE_MOCK1(fsh, void(short));
 };
@@ -254,6 +265,12 @@ def emit_test_body(k, t, dom, e):
         L.append('  { auto m = %s; for (int i = 0; i < %d; ++i) { char const* x = i < 6 ? STR_DOM[i] : nullptr; G::out("r %d pmc %%d %%d", i, trompeloeil::param_matches(m, std::ref(x)) ? 1 : 0); } }' % (e, ncs, k))
         L.append('  { MockC mk; ALLOW_CALL(mk, fstr(%s)); for (int i = 0; i < 6; ++i) { std::string x = STR_DOM[i]; G::out("r %d call %%d %%d", i, called([&]{ mk.fstr(x); })); } }' % (e, k))
         L.append('  { MockC mk; ALLOW_CALL(mk, fcs(%s)); for (int i = 0; i < %d; ++i) { char const* x = i < 6 ? STR_DOM[i] : nullptr; G::out("r %d callc %%d %%d", i, called([&]{ mk.fcs(x); })); } }' % (e, ncs, k))
+        if not has_kind(t, ('any',)):
+            # a string_view that is a sub-range of a longer buffer (what follows it must not be looked at), and a
+            # std::string with an embedded NUL (what follows the NUL is part of the value)
+            L.append('  { auto m = %s; for (int i = 0; i < 6; ++i) { std::string buf = std::string(STR_DOM[i]) + "abcb"; std::string_view x(buf.data(), std::strlen(STR_DOM[i])); G::out("r %d pmv %%d %%d", i, trompeloeil::param_matches(m, std::ref(x)) ? 1 : 0); } }' % (e, k))
+            L.append('  { MockC mk; ALLOW_CALL(mk, fsv(%s)); for (int i = 0; i < 6; ++i) { std::string buf = std::string(STR_DOM[i]) + "abcb"; std::string_view x(buf.data(), std::strlen(STR_DOM[i])); G::out("r %d callv %%d %%d", i, called([&]{ mk.fsv(x); })); } }' % (e, k))
+        L.append('  { MockC mk; ALLOW_CALL(mk, fstr(%s)); for (int i = 0; i < 6; ++i) { std::string x = std::string(STR_DOM[i]) + std::string(1, char(0)) + "abcb"; G::out("r %d calln %%d %%d", i, called([&]{ mk.fstr(x); })); } }' % (e, k))
     L.append('}')
     L.append('static G::Reg reg_%d(%d, &test_%d);' % (k, k, k))
     return L
@@ -271,6 +288,8 @@ def domain_values(dom, mode):
     if dom == 'struct':
         return [(i // 3, i % 3) for i in range(9)]
     if dom == 'str':
+        if mode == 'calln':
+            return [x + '\x00abcb' for x in STR_DOM]
         return STR_DOM + ([None] if mode in ('pmc', 'callc') else [])
 
 
@@ -303,7 +322,7 @@ def plan(tier, seed):
               ('struct', T('member', 1, T('eq', 2, var=True)))]
     trees += [('int', T('wild')), ('int', T('any')), ('ptr', T('isnull')), ('ptr', T('notnull')), ('ptr', T('deref', T('any')))]
     for pat in PATTERNS:
-        for flag in ('none', 'icase', 'notbol'):
+        for flag in ('none', 'icase', 'notbol', 'noteol', 'cont'):
             trees.append(('str', T('re', pat, flag)))
     fixed = len(trees)
     gens = {'int': gen_int, 'ptr': gen_ptr, 'struct': gen_struct, 'str': gen_str,
@@ -423,7 +442,7 @@ def run(prop, tier, seed):
     if len(done - {9500}) < len(trees) and not (rc != 0 or to):
         v.inconclusive.append('only %d of %d tests ran' % (len(done), len(trees)))
     v.coverage = dict(evaluations=comparisons, distinct_nontrivial=len(nontriv),
-                      rule='one evaluation = one (matcher tree, value, application mode) comparison of the real matcher with the mathematical predicate; modes: param_matches on int / int* / unique_ptr / shared_ptr / struct / std::string / char const* (incl. null) and as the parameter of a real mock call (accepted vs no-match report); distinct non-trivial = distinct tree that accepts some and rejects some values of its domain',
+                      rule='one evaluation = one (matcher tree, value, application mode) comparison of the real matcher with the mathematical predicate; modes: param_matches on int / int* / unique_ptr / shared_ptr / struct / std::string / char const* (incl. null) / string_view sub-range of a longer buffer / std::string with an embedded NUL and as the parameter of a real mock call (accepted vs no-match report); distinct non-trivial = distinct tree that accepts some and rejects some values of its domain',
                       samples=samples, trees=len(trees), fixed_trees=fixed, random_trees=len(trees) - fixed,
                       by_domain={d: sum(1 for x in trees if x[0] == d) for d in ('int', 'uc', 'sh', 'ptr', 'struct', 'str')},
                       exhaustive=False)
